@@ -1,0 +1,220 @@
+//go:build verif
+
+// Contracts for the deductive checker under /verif (govc). This file holds
+// comments only: with the build tag off it is not compiled, with the tag on it
+// compiles to nothing. See /verif/DESIGN.md §3.2 for the clause language.
+
+package gldap
+
+// ---- trusted type invariants of go-asn1-ber packets (never written by gldap) ------
+//@ nonnull ber.Packet.Data
+//@ nonnull elems(*ber.Packet)
+
+// ---- spec functions ------------------------------------------------------------------
+//@ pure kid(p *ber.Packet, i int) *ber.Packet = p.Children[i]
+//@ pure nkids(p *ber.Packet) int = len(p.Children)
+//@ pure isU(p *ber.Packet, ty ber.Type, tag ber.Tag) bool = p.ClassType == ber.ClassUniversal && p.TagType == ty && p.Tag == tag
+//@ pure pktBasic(q *ber.Packet) bool = q != nil && isU(q, ber.TypeConstructed, ber.TagSequence) && nkids(q) >= 2
+//@ pure packetOK(p *packet) bool = p != nil && p.Packet != nil && (p.validated ==> pktBasic(p.Packet))
+//@ pure str(p *ber.Packet) string = p.Data.G_bufdata
+//@ pure intval(p *ber.Packet) int64 = p.Value.(int64)
+//@ pure boolval(p *ber.Packet) bool = p.Value.(bool)
+//@ pure isOct(p *ber.Packet) bool = isU(p, ber.TypePrimitive, ber.TagOctetString)
+//@ pure isInt(p *ber.Packet) bool = isU(p, ber.TypePrimitive, ber.TagInteger)
+//@ pure isEnum(p *ber.Packet) bool = isU(p, ber.TypePrimitive, ber.TagEnumerated)
+//@ pure isSeq(p *ber.Packet) bool = isU(p, ber.TypeConstructed, ber.TagSequence)
+
+// wire(p): what go-asn1-ber v1.5.5 readPacket guarantees of a packet it returns
+// (trusted, DESIGN §4 T-BER). Value kinds by universal tag; constructed nodes
+// carry no value; primitive nodes no children.
+//@ pure valKind(p *ber.Packet) bool = (p.Tag == ber.TagBoolean ==> typeIs(p.Value, bool)) &&
+//@     ((p.Tag == ber.TagInteger || p.Tag == ber.TagEnumerated) ==> typeIs(p.Value, int64)) &&
+//@     ((p.Tag == ber.TagOctetString || p.Tag == ber.TagUTF8String || p.Tag == ber.TagPrintableString || p.Tag == ber.TagIA5String) ==> typeIs(p.Value, string) && p.Value.(string) == str(p)) &&
+//@     (p.Tag == ber.TagRealFloat ==> typeIs(p.Value, float64)) &&
+//@     (p.Tag == ber.TagGeneralizedTime ==> typeIs(p.Value, time.Time)) &&
+//@     (p.Tag != ber.TagBoolean && p.Tag != ber.TagInteger && p.Tag != ber.TagEnumerated && p.Tag != ber.TagOctetString && p.Tag != ber.TagUTF8String && p.Tag != ber.TagPrintableString && p.Tag != ber.TagIA5String && p.Tag != ber.TagRealFloat && p.Tag != ber.TagGeneralizedTime ==> isNilIface(p.Value))
+//@ predicate wire(p *ber.Packet) = p != nil && p.Data != nil && p.Tag >= 0 &&
+//@     (p.TagType == ber.TypePrimitive || p.TagType == ber.TypeConstructed) &&
+//@     (p.ClassType == ber.ClassUniversal || p.ClassType == ber.ClassApplication || p.ClassType == ber.ClassContext || p.ClassType == ber.ClassPrivate) &&
+//@     forall(i, 0, len(p.Children), wire(p.Children[i])) &&
+//@     (p.TagType == ber.TypeConstructed ==> isNilIface(p.Value)) &&
+//@     (p.TagType == ber.TypePrimitive ==> len(p.Children) == 0) &&
+//@     (p.TagType == ber.TypePrimitive && p.ClassType != ber.ClassUniversal ==> isNilIface(p.Value)) &&
+//@     (p.TagType == ber.TypePrimitive && p.ClassType == ber.ClassUniversal ==> valKind(p))
+
+//@ pure appReqOK(q *ber.Packet) bool = q.ClassType == ber.ClassApplication && (q.TagType == ber.TypeConstructed || (q.TagType == ber.TypePrimitive && (q.Tag == ApplicationDelRequest || q.Tag == ApplicationUnbindRequest)))
+
+// ---- packet.go -----------------------------------------------------------------------
+//@ pure op(q *ber.Packet) *ber.Packet = kid(q, 1)
+//@ pure bindV3(o *ber.Packet) bool = nkids(o) >= 1 && isInt(kid(o,0)) && intval(kid(o,0)) == 3
+//@ pure reqPktOK(q *ber.Packet) bool = pktBasic(q) && appReqOK(op(q)) && (op(q).Tag == ApplicationBindRequest ==> bindV3(op(q)))
+//@ pure supportedTag(t ber.Tag) bool = t == ApplicationBindRequest || t == ApplicationSearchRequest || t == ApplicationExtendedRequest || t == ApplicationModifyRequest || t == ApplicationAddRequest || t == ApplicationDelRequest || t == ApplicationUnbindRequest
+//@ pure ctxPrim0(q *ber.Packet) bool = q.ClassType == ber.ClassContext && q.TagType == ber.TypePrimitive && q.Tag == 0
+//@ pure ctlPktOK(q *ber.Packet) bool = nkids(q) > 2 ==> kid(q,2).ClassType == ber.ClassContext && kid(q,2).TagType == ber.TypeConstructed
+//@ pure nctl(q *ber.Packet) int = cond(nkids(q) > 2, nkids(kid(q,2)), 0)
+
+//@ func (*gldap.packet).basicValidation
+//@   requires p != nil && p.Packet != nil
+//@   requires p.validated ==> pktBasic(p.Packet)
+//@   ensures  result == nil ==> p.validated && pktBasic(p.Packet)
+//@   ensures  pktBasic(p.Packet) ==> result == nil
+//@   ensures  p.validated ==> pktBasic(p.Packet)
+//@   ensures  p.Packet == old(p.Packet)
+//@   panics false
+//@   modifies packet.validated
+//@   tags C01
+//@   safety C02
+
+//@ func (*gldap.packet).requestMessageID
+//@   requires packetOK(p)
+//@   ensures  err == nil ==> pktBasic(p.Packet) && isInt(kid(p.Packet,0)) && typeIs(kid(p.Packet,0).Value, int64) && result0 == intval(kid(p.Packet,0))
+//@   ensures  pktBasic(p.Packet) && isInt(kid(p.Packet,0)) && typeIs(kid(p.Packet,0).Value, int64) ==> err == nil
+//@   ensures  packetOK(p) && p.Packet == old(p.Packet)
+//@   panics false
+//@   modifies packet.validated
+//@   tags C01
+//@   safety C02
+
+//@ func (*gldap.packet).controlPacket
+//@   requires p != nil && p.Packet != nil && wire(p.Packet)
+//@   ensures  (err == nil) == ctlPktOK(p.Packet)
+//@   ensures  err == nil && nkids(p.Packet) <= 2 ==> result0 == nil
+//@   ensures  err == nil && nkids(p.Packet) > 2 ==> result0 != nil && fresh(result0) && result0.Packet == kid(p.Packet,2)
+//@   ensures  err != nil ==> result0 == nil
+//@   panics false
+//@   modifies nothing
+//@   tags C01
+//@   safety C02
+
+//@ func (*gldap.packet).assertApplicationRequest
+//@   requires p != nil && p.Packet != nil && wire(p.Packet)
+//@   ensures  (result == nil) == (nkids(p.Packet) >= 2 && appReqOK(op(p.Packet)))
+//@   panics false
+//@   modifies nothing
+//@   tags C01
+//@   safety C02
+
+//@ func (*gldap.packet).requestPacket
+//@   requires packetOK(p) && wire(p.Packet)
+//@   ensures  packetOK(p) && p.Packet == old(p.Packet)
+//@   ensures  (err == nil) == reqPktOK(p.Packet)
+//@   ensures  err == nil ==> result0 != nil && fresh(result0) && !result0.validated && result0.Packet == op(p.Packet)
+//@   panics false
+//@   modifies packet.validated
+//@   tags C01
+//@   safety C02
+
+//@ pure reqTypeOf(t ber.Tag) requestType = cond(t == ApplicationBindRequest, bindRequestType, cond(t == ApplicationSearchRequest, searchRequestType, cond(t == ApplicationExtendedRequest, extendedRequestType,
+//@     cond(t == ApplicationModifyRequest, modifyRequestType, cond(t == ApplicationAddRequest, addRequestType, cond(t == ApplicationDelRequest, deleteRequestType, cond(t == ApplicationUnbindRequest, unbindRequestType, unknownRequestType)))))))
+//@ func (*gldap.packet).requestType
+//@   requires packetOK(p) && wire(p.Packet)
+//@   ensures  packetOK(p) && p.Packet == old(p.Packet)
+//@   ensures  (err == nil) == (reqPktOK(p.Packet) && supportedTag(op(p.Packet).Tag))
+//@   ensures  err == nil ==> result0 == reqTypeOf(op(p.Packet).Tag)
+//@   panics false
+//@   modifies packet.validated
+//@   tags C01
+//@   safety C02
+
+//@ func (*gldap.packet).extendedOperationName
+//@   requires packetOK(p) && wire(p.Packet)
+//@   ensures  packetOK(p) && p.Packet == old(p.Packet)
+//@   ensures  (err == nil) == (reqPktOK(p.Packet) && op(p.Packet).Tag == ApplicationExtendedRequest && nkids(op(p.Packet)) >= 1 && ctxPrim0(kid(op(p.Packet),0)))
+//@   ensures  err == nil ==> result0 == str(kid(op(p.Packet),0))
+//@   panics false
+//@   modifies packet.validated
+//@   tags C01
+//@   safety C02
+
+//@ func (*gldap.packet).deleteParameters
+//@   requires packetOK(p) && wire(p.Packet)
+//@   ensures  err == nil ==> old(reqPktOK(p.Packet) && op(p.Packet).Tag == ApplicationDelRequest && ctlPktOK(p.Packet))
+//@   ensures  err == nil ==> result0 == old(str(op(p.Packet))) && len(result1) == old(nctl(p.Packet))
+//@   ensures  old(reqPktOK(p.Packet) && op(p.Packet).Tag == ApplicationDelRequest && nkids(p.Packet) == 2) ==> err == nil
+//@   panics false
+//@   tags C01
+//@   safety C02
+//@ loop 1
+//@   invariant len(controls) == rangeindex + 1
+//@   modifies cell(Control), all(ber.Packet), cell(*ber.Packet), G_bufdata, G_pktnew
+
+//@ func (*gldap.packet).simpleBindParameters
+//@   requires packetOK(p) && wire(p.Packet)
+//@   ensures  err == nil ==> old(reqPktOK(p.Packet) && nkids(op(p.Packet)) >= 2 && isOct(kid(op(p.Packet),1)))
+//@   ensures  err == nil ==> result0 == old(str(kid(op(p.Packet),1)))
+//@   ensures  err == nil && old(nkids(op(p.Packet))) > 3 ==> result1 == "" && len(result2) == 0
+//@   ensures  err == nil && old(nkids(op(p.Packet))) <= 3 ==> old(nkids(op(p.Packet)) == 3 && ctxPrim0(kid(op(p.Packet),2)) && ctlPktOK(p.Packet)) && result1 == old(str(kid(op(p.Packet),2))) && len(result2) == old(nctl(p.Packet))
+//@   ensures  old(reqPktOK(p.Packet) && nkids(op(p.Packet)) == 3 && isOct(kid(op(p.Packet),1)) && ctxPrim0(kid(op(p.Packet),2)) && nkids(p.Packet) == 2) ==> err == nil
+//@   panics false
+//@   tags C01
+//@   safety C02
+//@ loop 1
+//@   invariant len(controls) == rangeindex + 1
+//@   modifies cell(Control), all(ber.Packet), cell(*ber.Packet), G_bufdata, G_pktnew
+
+//@ pure searchHead(o *ber.Packet) bool = o.Tag == ApplicationSearchRequest && nkids(o) >= 7 && isOct(kid(o,0)) && isEnum(kid(o,1)) && isEnum(kid(o,2)) && isInt(kid(o,3)) && isInt(kid(o,4)) && isU(kid(o,5), ber.TypePrimitive, ber.TagBoolean)
+//@ pure attrListOK(a *ber.Packet) bool = isSeq(a) && forall(j, 0, nkids(a), isOct(kid(a,j)))
+//@ abstract filterOK(f *ber.Packet) bool
+//@ abstract decomp(f *ber.Packet) string
+//@ func (*gldap.packet).searchParmeters
+//@   requires packetOK(p) && wire(p.Packet)
+//@   ensures  err == nil ==> result0 != nil && old(reqPktOK(p.Packet) && searchHead(op(p.Packet)) && filterOK(kid(op(p.Packet),6)))
+//@   ensures  err == nil ==> result0.baseDN == old(str(kid(op(p.Packet),0))) && result0.scope == old(intval(kid(op(p.Packet),1))) && result0.derefAliases == old(intval(kid(op(p.Packet),2)))
+//@   ensures  err == nil ==> result0.sizeLimit == old(intval(kid(op(p.Packet),3))) && result0.timeLimit == old(intval(kid(op(p.Packet),4))) && result0.typesOnly == old(boolval(kid(op(p.Packet),5))) && result0.filter == old(decomp(kid(op(p.Packet),6)))
+//@   ensures  err == nil && old(nkids(op(p.Packet))) < 8 ==> len(result0.attributes) == 0 && len(result0.controls) == 0
+//@   ensures  err == nil && old(nkids(op(p.Packet))) >= 8 ==> old(attrListOK(kid(op(p.Packet),7)) && ctlPktOK(p.Packet)) && len(result0.attributes) == old(nkids(kid(op(p.Packet),7))) && len(result0.controls) == old(nctl(p.Packet))
+//@   ensures  err == nil && old(nkids(op(p.Packet))) >= 8 ==> forall(j, 0, len(result0.attributes), result0.attributes[j] == old(str(kid(kid(op(p.Packet),7),j))))
+//@   ensures  old(reqPktOK(p.Packet) && searchHead(op(p.Packet)) && filterOK(kid(op(p.Packet),6)) && nkids(op(p.Packet)) == 8 && attrListOK(kid(op(p.Packet),7)) && nkids(p.Packet) == 2) ==> err == nil
+//@   panics false
+//@   tags C01
+//@   safety C02
+//@ loop 1
+//@   invariant len(searchFor.attributes) == rangeindex__1 + 1
+//@   invariant forall(j, 0, len(searchFor.attributes), searchFor.attributes[j] == old(str(kid(kid(op(p.Packet),7),j))))
+//@   invariant forall(j, 0, rangeindex__1 + 1, isOct(kid(attributesPacket.Packet,j)))
+//@   modifies searchParameters.attributes, cell(string)
+//@ loop 2
+//@   invariant len(searchFor.controls) == rangeindex__2 + 1
+//@   modifies searchParameters.controls, cell(Control), all(ber.Packet), cell(*ber.Packet), G_bufdata, G_pktnew
+
+//@ predicate attrOK(b *ber.Packet) = isSeq(b) && nkids(b) >= 2 && isOct(kid(b,0)) && isU(kid(b,1), ber.TypeConstructed, ber.TagSet) && forall(j, 0, nkids(kid(b,1)), isOct(kid(kid(b,1),j)))
+//@ predicate strsAre(vs []string, set *ber.Packet) = len(vs) == old(nkids(set)) && forall(k, 0, len(vs), vs[k] == old(str(kid(set,k))))
+//@ func gldap.decodeAttribute
+//@   requires berPacket != nil ==> wire(berPacket)
+//@   ensures  (err == nil) == (berPacket != nil && attrOK(berPacket))
+//@   ensures  err == nil ==> result0 != nil && fresh(result0) && result0.Type == str(kid(berPacket,0)) && strsAre(result0.Vals, kid(berPacket,1))
+//@   panics false
+//@   modifies nothing
+//@   tags C01
+//@   safety C02
+//@ loop 1
+//@   invariant len(decodedAttribute.Vals) == rangeindex + 1 && fresh(decodedAttribute.Vals)
+//@   invariant forall(j, 0, len(decodedAttribute.Vals), decodedAttribute.Vals[j] == str(kid(valuesPacket.Packet,j)))
+//@   invariant forall(j, 0, rangeindex + 1, isOct(kid(valuesPacket.Packet,j)))
+//@   modifies Attribute.Vals, cell(string)
+
+//@ pure addHead(q *ber.Packet) bool = reqPktOK(q) && op(q).Tag == ApplicationAddRequest && nkids(op(q)) >= 2 && isOct(kid(op(q),0)) && isSeq(kid(op(q),1))
+//@ func (*gldap.packet).addParameters
+//@   requires packetOK(p) && wire(p.Packet)
+//@   ensures  err == nil ==> result0 != nil && old(addHead(p.Packet) && ctlPktOK(p.Packet))
+//@   ensures  err == nil ==> result0.dn == old(str(kid(op(p.Packet),0))) && len(result0.attributes) == old(nkids(kid(op(p.Packet),1))) && len(result0.controls) == old(nctl(p.Packet))
+//@   ensures  err == nil ==> forall(j, 0, len(result0.attributes), old(attrOK(kid(kid(op(p.Packet),1),j))) && result0.attributes[j].Type == old(str(kid(kid(kid(op(p.Packet),1),j),0))) && strsAre(result0.attributes[j].Vals, old(kid(kid(kid(op(p.Packet),1),j),1))))
+//@   ensures  old(addHead(p.Packet) && forall(j, 0, nkids(kid(op(p.Packet),1)), attrOK(kid(kid(op(p.Packet),1),j))) && nkids(p.Packet) == 2) ==> err == nil
+//@   panics false
+//@   tags C01
+//@   safety C02
+//@ loop 1
+//@   invariant len(add.attributes) == rangeindex__1 + 1
+//@   invariant forall(j, 0, len(add.attributes), old(attrOK(kid(kid(op(p.Packet),1),j))) && add.attributes[j].Type == old(str(kid(kid(kid(op(p.Packet),1),j),0))) && strsAre(add.attributes[j].Vals, old(kid(kid(kid(op(p.Packet),1),j),1))))
+//@   modifies addParameters.attributes, all(Attribute)
+//@ loop 2
+//@   invariant len(add.controls) == rangeindex__2 + 1
+//@   modifies addParameters.controls, cell(Control), all(ber.Packet), cell(*ber.Packet), G_bufdata, G_pktnew
+
+// ---- control.go -------------------------------------------------------------------------
+//@ func gldap.decodeControl
+//@   ensures err == nil ==> !isNilIface(result0)
+//@   panics false
+//@   modifies all(ber.Packet), cell(*ber.Packet), G_bufdata, G_pktnew
+//@   tags C01
+//@   safety C02
